@@ -327,3 +327,67 @@ def nonfinite_verdict(ctx, s, fields=("u", "v", "jac")):
                           S.small_req(s), expected=f"~1e{lj:.0f}", observed=a["jac"])
         else:
             ctx.count("nonfinite_jacobian_out_of_f64_range")
+
+
+def nolog_agreement(ctx, ss, k=12):
+    """The crate as a default-feature user builds it (no `log` feature: the library's `#[cfg(not(feature = "log"))]` branches, plain
+    println! debugging, exist only there). The same requests through the public API of that build, with print_debug_info off and on:
+    both must equal the result of the instrumented build bit for bit."""
+    from .core import run_nolog
+    sel = [s for s in ss if s.get("impl", {}).get("status") in ("ok", "zerodet", "unstable", "gammaerr") and s["req"].get("api_graph")][:k]
+    if not sel:
+        return
+    reqs = []
+    for s in sel:
+        base = {kk: s["req"][kk] for kk in ("D", "sig", "x", "edge_data", "api_graph") if kk in s["req"]}
+        if "tol" in s["req"]:
+            base["tol"] = s["req"]["tol"]
+        for dbg in (False, True):
+            reqs.append(dict(base, op="sample", debug=dbg, meta=True))
+    res, err = run_nolog(reqs)
+    if res is None:
+        ctx.mismatch("the crate does not build with its default features (no `log`)", None, err[-800:], None); return
+    fields = ("status", "k", "uTrop", "vTrop", "u", "v", "jac")
+    for i, s in enumerate(sel):
+        a = s["impl"]
+        for dbg, b in ((False, res[2 * i]), (True, res[2 * i + 1])):
+            ctx.count("default_feature_build_compared")
+            small = dict(S.small_req(s), debug=dbg, build="default features")
+            if b.get("status") == "panic":
+                ctx.violation(f"default-feature build: sample panicked (print_debug_info={dbg}): {str(b.get('msg'))[:150]}", small, observed=b); break
+            if "error" in b:
+                ctx.mismatch("default-feature harness", small, b, None, "machinery error"); break
+            if any(a.get(f) != b.get(f) for f in fields):
+                diff = [f for f in fields if a.get(f) != b.get(f)]
+                ctx.violation(f"default-feature build (no `log`), print_debug_info={dbg}: {diff} differ from the result of the same call in the "
+                              f"instrumented build", small, expected={f: a.get(f) for f in diff}, observed={f: b.get(f) for f in diff}); break
+
+
+def normalisation_oracle(ctx, ss, limit=60):
+    """the stored normalisation I_tr Gamma(dod)/prod Gamma(w_e) pi^(D L/2) of every distinct graph among the samples against 40-digit
+    arithmetic on the exact table (the sample-level correspondences take the table - this factor included - from the implementation)"""
+    from .props.c04 import cached_oracle
+    seen = set()
+    for s in ss:
+        c = s["case"]
+        if id(c) in seen or "table" not in c or "built" not in s or len(seen) >= limit:
+            continue
+        seen.add(id(c))
+        n = len(c["edges"])
+        dodf = float(c["dod"])
+        if n > 9 or dodf > 170 or max(c["weights"]) > 170 or not finite([s["built"]["cached"]]):
+            continue
+        pole = abs(dodf - round(dodf)) if dodf < 0.5 else 1.0
+        if dodf < 0.5 and pole < 1e-6:
+            continue
+        Jx = oracle.j_exact(c["table"], n)
+        cx = cached_oracle(c, Jx[-1])
+        wsum = float(sum(abs(w) for w in c["weights"])) + c["loops"] * c["D"]
+        omin = float(min(abs(c["table"][mk][2]) for mk in range((1 << n) - 1)))
+        tol = 1e-11 + 1e-12 * n * n * (1 + wsum / omin) + 4e-16 * wsum * (1.0 / min(pole, 1.0) + 10.0 + abs(dodf)) \
+            + sum(4e-16 * (1.0 / min(w, 1.0) + 10.0) for w in c["weights"])
+        ctx.count("normalisation_oracle")
+        got = b2f(s["built"]["cached"])
+        if not abs(got - cx) <= tol * abs(cx):
+            ctx.violation(f"normalisation of the sampler (jacobian = normalisation x U^(-D/2) V^(-dod)): stored {got!r}, "
+                          f"I_tr Gamma(dod)/prod Gamma(w) pi^(DL/2) = {cx!r} (weights {c['weights']}, D={c['D']})", S.small_req(s), expected=cx, observed=got)
